@@ -308,6 +308,24 @@ m("kb_set_ctrl_clears_framer", ["C18"], LIB, """    pub fn set_ctrl_handling(&mu
         self.event_decoder.set_ctrl_handling(new_value);
     }""", "a configuration call touches the bit framing")
 
+
+# ---- long-horizon defects (need the marathon stratum)
+m2("ps2_frame_counter_overflow", ["C08", "C06"], [
+    (LIB, "pub struct Ps2Decoder {\n    register: u16,\n    num_bits: u8,\n}", "pub struct Ps2Decoder {\n    register: u16,\n    num_bits: u8,\n    frames: u8,\n}"),
+    (LIB, "        Ps2Decoder {\n            register: 0,\n            num_bits: 0,\n        }", "        Ps2Decoder {\n            register: 0,\n            num_bits: 0,\n            frames: 0,\n        }"),
+    (LIB, "            let word = self.register;\n            self.register = 0;\n            self.num_bits = 0;", "            let word = self.register;\n            self.register = 0;\n            self.num_bits = 0;\n            self.frames += 1;"),
+], "a diagnostics counter of completed frames overflows its u8 after 255 frames")
+m2("ps2_every_200th_frame_lost", ["C06", "C05"], [
+    (LIB, "pub struct Ps2Decoder {\n    register: u16,\n    num_bits: u8,\n}", "pub struct Ps2Decoder {\n    register: u16,\n    num_bits: u8,\n    frames: u16,\n}"),
+    (LIB, "        Ps2Decoder {\n            register: 0,\n            num_bits: 0,\n        }", "        Ps2Decoder {\n            register: 0,\n            num_bits: 0,\n            frames: 0,\n        }"),
+    (LIB, "            let word = self.register;\n            self.register = 0;\n            self.num_bits = 0;", "            let word = self.register;\n            self.register = 0;\n            self.num_bits = 0;\n            self.frames = self.frames.wrapping_add(1);\n            if self.frames % 200 == 0 {\n                return Ok(None);\n            }"),
+], "every 200th completed frame is silently swallowed")
+m2("events_capslock_third_toggle_skipped", ["C04"], [
+    (LIB, "    handle_ctrl: HandleControl,\n    modifiers: Modifiers,\n    layout: L,\n}", "    handle_ctrl: HandleControl,\n    modifiers: Modifiers,\n    layout: L,\n    caps_presses: u8,\n}"),
+    (LIB, "            layout,\n        }\n    }\n\n    /// Change the Ctrl key mapping.\n    pub fn set_ctrl_handling(&mut self, new_value: HandleControl) {\n        self.handle_ctrl = new_value;", "            layout,\n            caps_presses: 0,\n        }\n    }\n\n    /// Change the Ctrl key mapping.\n    pub fn set_ctrl_handling(&mut self, new_value: HandleControl) {\n        self.handle_ctrl = new_value;"),
+    (LIB, "                self.modifiers.capslock = !self.modifiers.capslock;\n                Some(DecodedKey::RawKey(KeyCode::CapsLock))", "                self.caps_presses = self.caps_presses.wrapping_add(1);\n                if self.caps_presses % 64 != 0 {\n                    self.modifiers.capslock = !self.modifiers.capslock;\n                }\n                Some(DecodedKey::RawKey(KeyCode::CapsLock))"),
+], "every 64th CapsLock press does not toggle (hidden counter)")
+
 SPECIAL = {
  # full replacement for the Set 1 Extended arm (reset after lookup)
  "set1_ext_reset_after_lookup": [(S1, """            DecodeState::Extended => {
